@@ -85,6 +85,14 @@ func c09Servers() []c09server {
 			}
 			return "", nil, false
 		}},
+		// capitals in the declared host and in a host with a variable: a request spelled the way the server is declared belongs to it
+		{"capitals-in-host", gen.Arr(gen.S{"url": "https://API.Example.t/base"}), func(scheme, host, path string) (string, map[string]string, bool) {
+			if scheme != "https" || host != "API.Example.t" {
+				return "", nil, false
+			}
+			r, ok := c09MatchBase("/base")(path)
+			return r, map[string]string{}, ok
+		}},
 		{"path-level", nil, nil},
 		{"variables", gen.Arr(gen.S{"url": "https://{env}.h.t/{ver}", "variables": gen.S{"env": gen.S{"default": "prod", "enum": gen.Arr("prod", "dev")}, "ver": gen.S{"default": "v2"}}}),
 			func(scheme, host, path string) (string, map[string]string, bool) {
@@ -192,7 +200,7 @@ type c09Witness struct {
 func init() {
 	core.Register(&core.Check{
 		ID:   "C09",
-		Rule: "template sets: all single templates, all pairs and (quick: every 40th, thorough: every) triple of the 84 paths with <=3 segments over {a, b, {x}, {y}} (no repeated variable, no two templates of identical shape), plus all singles, pairs and triples of 8 templates whose variable shares its segment with literal text (/v{x}/a, /b/img-{y}, /b/{y}.json ...) next to literal siblings, methods GET on every path and POST on every other one; servers: none, relative /v1, absolute https://h.t/base, two servers, two servers differing in scheme only, a base path with a percent-escape, variables in host and base path; requests: every template filled with values from {a, b, 7} under every server spelling, methods GET/POST/DELETE/HEAD (DELETE and HEAD are declared nowhere), plus near misses (trailing slash, extra segment, missing segment, root, wrong scheme, wrong host, missing base path); both routers. Soundness (returned operation is the declared one, substitution reproduces the path), completeness, literal-wins and not-found are judged by an independent segment matcher. Distinct = (router, template set, server, request); non-trivial = the set has a variable or two templates sharing a first segment.",
+		Rule: "template sets: all single templates, all pairs and (quick: every 40th, thorough: every) triple of the 84 paths with <=3 segments over {a, b, {x}, {y}} (no repeated variable, no two templates of identical shape), plus all singles, pairs and triples of 8 templates whose variable shares its segment with literal text (/v{x}/a, /b/img-{y}, /b/{y}.json ...) next to literal siblings, methods GET on every path and POST on every other one; servers: none, relative /v1, absolute https://h.t/base, two servers, two servers differing in scheme only, a base path with a percent-escape, capitals in the host, variables in host and base path, several servers on one host whose base paths extend each other (both orders, three deep) with literal and templated siblings of the same tail; requests: every template filled with values from {a, b, 7} under every server spelling, methods GET/POST/DELETE/HEAD (DELETE and HEAD are declared nowhere), plus near misses (trailing slash, extra segment, missing segment, root, wrong scheme, wrong host, missing base path); both routers. Soundness (returned operation is the declared one, substitution reproduces the path), completeness, literal-wins and not-found are judged by an independent segment matcher. Distinct = (router, template set, server, request); non-trivial = the set has a variable or two templates sharing a first segment.",
 		Assumptions: []string{
 			"a variable matches exactly one non-empty slash-free segment; a fully literal template wins over a templated one; when several templated ones match, any of them is a correct answer provided it declares the method",
 		},
@@ -255,6 +263,7 @@ func runC09(c *core.Ctx) {
 			}
 		}
 	}
+	c09NestedServers(c, &idx)
 }
 
 func c09Set(c *core.Ctx, set []string, srv c09server) {
@@ -340,6 +349,8 @@ func c09Set(c *core.Ctx, set []string, srv c09server) {
 		prefixes = []urlT{{"https", "h.t", "/my%20api"}, {"https", "h.t", "/my"}, {"https", "h.t", ""}}
 	case "same-host-two-schemes":
 		prefixes = []urlT{{"https", "h.t", "/base"}, {"http", "h.t", "/base"}, {"http", "other.t", "/base"}}
+	case "capitals-in-host":
+		prefixes = []urlT{{"https", "API.Example.t", "/base"}, {"https", "other.t", "/base"}, {"https", "API.Example.t", ""}}
 	case "path-level":
 		prefixes = []urlT{{"https", "p.t", "/px"}, {"http", "any.host", ""}, {"http", "p.t", "/px"}}
 	case "variables":
